@@ -15,13 +15,19 @@
 //!    The Lean models in `Model/TcRules.lean` / `Model/Unify.lean` are
 //!    *parameterised* by these facts, so a changed arm is a changed Lean
 //!    definition and the theorems are re-checked against it.
+//!  * `C07Arms.lean` (target `c07arms`, `mod arms` below): the call skeleton of
+//!    `TypeChecker::expr` & co., arm by arm; `Model/TcInferPinned.lean` pins the
+//!    copy `Model/TcInfer.lean` was written from (refresh: tools/c07_pin_arms.py).
 #[allow(unused_imports)]
 use super::{Gen, Target};
 use crate::find;
 use quote::ToTokens;
 use std::path::Path;
 
-pub const TARGETS: &[Target] = &[("c07facts", "C07Facts", c07facts as Gen)];
+pub const TARGETS: &[Target] = &[
+    ("c07facts", "C07Facts", c07facts as Gen),
+    ("c07arms", "C07Arms", arms::c07arms as Gen),
+];
 
 fn norm(t: impl ToTokens) -> String {
     t.to_token_stream().to_string().replace([' ', '\n'], "")
@@ -320,4 +326,974 @@ fn c07facts(repo: &Path) -> Result<String, String> {
     ));
     out.push_str("\nend RotoV.Gen.C07Facts\n");
     Ok(out)
+}
+
+/// `C07Arms.lean`: a *call skeleton* of the type checker's expression code.
+///
+/// For every arm of `match &expr.node` (`TypeChecker::expr`), `match &stmt.node`
+/// (`stmt`), `match &lit.node` (`literal`) and for a list of whole functions the
+/// body is walked in source order and a list of short strings ("events") is
+/// written: the calls on `self`, the selected calls on `self.type_info…`, the
+/// control flow around them and the definitions of the locals they use. Local
+/// variables are alpha-renamed to `$k`, so renaming a local does not change the
+/// skeleton, while adding / removing / reordering a call, or changing the type
+/// an expression is checked against, does. `Model/TcInferPinned.lean` holds the
+/// copy the Lean model was written from; `Props/C07.lean` proves the two equal.
+///
+/// Events (texts are the token stream without whitespace, with `&`, `mut`,
+/// `.clone()`, `.to_string()` removed, string literals replaced by `STR`,
+/// `x.with_type(T)` written `with_type(T)`, variables ending in `scope` written `S`):
+///   `name(args)`         call `self.name(..)`; spans / ids, a trailing `None` and the leading
+///                        scope of expr/block/stmt/binop/check_arguments/record_fields/imports
+///                        are dropped; `error_*` calls: only the name
+///   `ti.name(args)`      is_numeric_type, is_int_type, resolve, resolve_type_name, set, wrap on
+///                        `self.type_info…` (every other call on it is bookkeeping and ignored)
+///   `obligation(m)`      `self.obligations.push(Obligation::…{ ident: "m".into(), .. })`
+///   `PAT=EVENT`          `let PAT = <one of the calls above / Ok(..)>`, also `x = <…>;`
+///   `PAT=TEXT`           `let PAT = <other expression without nested blocks>` (then its events)
+///   `let(PAT)`           `let PAT = <if / match / block>` (then its events; a bare block is closed by `end`)
+///   `TEXT`               a statement `TEXT;` that neither calls `self` nor is bookkeeping on
+///                        `self.type_info` / `self.obligations` (`x=true`, `v.push(y)`, `self.n+=1`, `continue`)
+///   `letelse(PAT=E)` … `else` … `end`
+///   `if(COND)` … [`else` …] `end`,  `match(E)` `arm(PAT)` [`guard(G)`] … `end`,
+///   `for(PAT<-E)` … `end`,  `while(COND)` … `end`,  `loop` … `end`
+///   `Ok(X)`, `return`, `|=` / `&=` (before a right-hand side that calls `self`)
+///   `value(TEXT)`        the value of a block / arm that is not itself one of the events above
+mod arms {
+    use crate::find;
+    use proc_macro2::{Delimiter, Ident, Spacing, Span, TokenStream, TokenTree};
+    use quote::ToTokens;
+    use std::collections::HashSet;
+    use std::path::Path;
+    use syn::visit::Visit;
+    use syn::visit_mut::VisitMut;
+    use syn::{Expr, Pat, Stmt};
+
+    /// methods of `self.type_info…` that are part of the skeleton
+    const TI_METHODS: &[&str] = &["is_numeric_type", "is_int_type", "resolve", "resolve_type_name", "set", "wrap"];
+    /// methods of `self` whose first argument is the scope
+    const SCOPE_FIRST: &[&str] = &["expr", "block", "stmt", "binop", "check_arguments", "record_fields", "imports"];
+
+    // ------------------------------------------------------------------ cfg
+
+    fn is_hook_cfg(attrs: &[syn::Attribute]) -> bool {
+        attrs.iter().any(|a| {
+            a.path().is_ident("cfg")
+                && match &a.meta {
+                    syn::Meta::List(l) => l.tokens.to_string().replace(' ', "") == "feature=\"verif-hooks\"",
+                    _ => false,
+                }
+        })
+    }
+
+    fn expr_attrs(e: &Expr) -> &[syn::Attribute] {
+        macro_rules! go {
+            ($($v:ident),*) => { match e { $(Expr::$v(x) => &x.attrs[..],)* _ => &[] } };
+        }
+        go!(
+            Array, Assign, Async, Await, Binary, Block, Break, Call, Cast, Closure, Const, Continue, Field, ForLoop,
+            Group, If, Index, Infer, Let, Lit, Loop, Macro, Match, MethodCall, Paren, Path, Range, Reference, Repeat,
+            Return, Struct, Try, TryBlock, Tuple, Unary, Unsafe, While, Yield
+        )
+    }
+
+    fn item_attrs(i: &syn::Item) -> &[syn::Attribute] {
+        macro_rules! go {
+            ($($v:ident),*) => { match i { $(syn::Item::$v(x) => &x.attrs[..],)* _ => &[] } };
+        }
+        go!(Const, Enum, ExternCrate, Fn, ForeignMod, Impl, Macro, Mod, Static, Struct, Trait, TraitAlias, Type, Union, Use)
+    }
+
+    fn stmt_is_hook(s: &Stmt) -> bool {
+        match s {
+            Stmt::Local(l) => is_hook_cfg(&l.attrs),
+            Stmt::Macro(m) => is_hook_cfg(&m.attrs),
+            Stmt::Expr(e, _) => is_hook_cfg(expr_attrs(e)),
+            Stmt::Item(i) => is_hook_cfg(item_attrs(i)),
+        }
+    }
+
+    // ----------------------------------------------------------------- text
+
+    fn is_punct(t: Option<&TokenTree>, c: char) -> bool {
+        matches!(t, Some(TokenTree::Punct(p)) if p.as_char() == c)
+    }
+    fn is_ident(t: Option<&TokenTree>, names: &[&str]) -> bool {
+        matches!(t, Some(TokenTree::Ident(i)) if names.iter().any(|n| i == n))
+    }
+    fn is_paren(t: Option<&TokenTree>, must_be_empty: bool) -> bool {
+        matches!(t, Some(TokenTree::Group(g)) if g.delimiter() == Delimiter::Parenthesis && (!must_be_empty || g.stream().is_empty()))
+    }
+
+    /// `__v12__` ↦ `$12`, `__S__` ↦ `S` (the placeholders the renamer leaves behind)
+    fn show_ident(s: &str) -> String {
+        if s == "__S__" {
+            return "S".into();
+        }
+        if let Some(k) = s.strip_prefix("__v").and_then(|r| r.strip_suffix("__")) {
+            if !k.is_empty() && k.chars().all(|c| c.is_ascii_digit()) {
+                return format!("${k}");
+            }
+        }
+        s.to_string()
+    }
+
+    fn render(ts: TokenStream, out: &mut String) {
+        let mut toks: Vec<TokenTree> = ts.into_iter().collect();
+        // a trailing comma (`f(a, b,)`, `S { x: 1, }`) is layout, not content
+        if is_punct(toks.last(), ',') {
+            toks.pop();
+        }
+        let mut i = 0;
+        while i < toks.len() {
+            match &toks[i] {
+                TokenTree::Ident(id) => {
+                    let s = id.to_string();
+                    if s == "mut" {
+                        i += 1;
+                        continue;
+                    }
+                    // `ctx.with_type(T)` (receiver: one identifier) is written `with_type(T)`
+                    let after_dot = i > 0 && is_punct(toks.get(i - 1), '.');
+                    if !after_dot
+                        && is_punct(toks.get(i + 1), '.')
+                        && is_ident(toks.get(i + 2), &["with_type"])
+                        && is_paren(toks.get(i + 3), false)
+                    {
+                        i += 2;
+                        continue;
+                    }
+                    out.push_str(&show_ident(&s));
+                }
+                TokenTree::Punct(p) => {
+                    let c = p.as_char();
+                    if c == '&' {
+                        // keep `&&` and `&=`, drop the reference operator
+                        if p.spacing() == Spacing::Joint && (is_punct(toks.get(i + 1), '&') || is_punct(toks.get(i + 1), '=')) {
+                            out.push('&');
+                            if let Some(TokenTree::Punct(q)) = toks.get(i + 1) {
+                                out.push(q.as_char());
+                            }
+                            i += 2;
+                            continue;
+                        }
+                    } else if c == '.' && is_ident(toks.get(i + 1), &["clone", "to_string"]) && is_paren(toks.get(i + 2), true) {
+                        i += 3;
+                        continue;
+                    } else {
+                        out.push(c);
+                    }
+                }
+                TokenTree::Literal(l) => {
+                    let s = l.to_string();
+                    let is_str = s.starts_with('"')
+                        || s.starts_with("r\"")
+                        || s.starts_with("r#")
+                        || s.starts_with("b\"")
+                        || s.starts_with("br")
+                        || s.starts_with("c\"");
+                    if is_str {
+                        out.push_str("STR");
+                    } else {
+                        out.push_str(&s);
+                    }
+                }
+                TokenTree::Group(g) => {
+                    let (o, c) = match g.delimiter() {
+                        Delimiter::Parenthesis => ("(", ")"),
+                        Delimiter::Brace => ("{", "}"),
+                        Delimiter::Bracket => ("[", "]"),
+                        Delimiter::None => ("", ""),
+                    };
+                    out.push_str(o);
+                    render(g.stream(), out);
+                    out.push_str(c);
+                }
+            }
+            i += 1;
+        }
+    }
+
+    /// the normalised text of a piece of syntax
+    fn text(t: impl ToTokens) -> String {
+        let mut s = String::new();
+        render(t.to_token_stream(), &mut s);
+        s
+    }
+
+    /// a pattern without its type ascription (`x: T` ↦ `x`)
+    fn pat_text(p: &Pat) -> String {
+        match p {
+            Pat::Type(t) => pat_text(&t.pat),
+            other => text(other),
+        }
+    }
+
+    // ------------------------------------------------------------- renaming
+
+    /// Scoped alpha-renaming of the variables bound inside a body: the k-th
+    /// binding occurrence (in source order) is renamed to the placeholder
+    /// `__vk__`, its uses follow Rust's scoping. Variables whose name ends in
+    /// `scope` (bound inside or not) become `__S__`. Shorthand fields
+    /// (`Foo { x }`) are expanded to `Foo { x: x }` first, so the field name
+    /// survives. Statements, arms and fields under `#[cfg(feature = "verif-hooks")]` are removed.
+    struct Renamer {
+        env: Vec<(String, usize)>,
+        next: usize,
+        /// the names (and numbers) bound by the first alternative of the or-pattern being bound
+        or_reuse: Vec<(String, usize)>,
+        /// locals defined as `let x = <…>.id`
+        id_locals: HashSet<usize>,
+    }
+
+    impl Renamer {
+        fn new() -> Self {
+            Renamer { env: vec![], next: 0, or_reuse: vec![], id_locals: HashSet::new() }
+        }
+
+        fn lookup(&self, n: &str) -> Option<usize> {
+            self.env.iter().rev().find(|(m, _)| m == n).map(|(_, k)| *k)
+        }
+
+        fn placeholder(name: &str, k: usize, span: Span) -> Ident {
+            if name.ends_with("scope") {
+                Ident::new("__S__", span)
+            } else {
+                Ident::new(&format!("__v{k}__"), span)
+            }
+        }
+
+        fn bind_pat(&mut self, p: &mut Pat) {
+            match p {
+                Pat::Ident(pi) => {
+                    let name = pi.ident.to_string();
+                    let ctor = pi.subpat.is_none()
+                        && pi.by_ref.is_none()
+                        && pi.mutability.is_none()
+                        && name.chars().next().map_or(false, |c| c.is_uppercase());
+                    if !ctor {
+                        let k = match self.or_reuse.iter().find(|(m, _)| *m == name) {
+                            Some((_, k)) => *k,
+                            None => {
+                                let k = self.next;
+                                self.next += 1;
+                                self.env.push((name.clone(), k));
+                                k
+                            }
+                        };
+                        pi.ident = Self::placeholder(&name, k, pi.ident.span());
+                        pi.mutability = None;
+                    }
+                    if let Some((_, sub)) = &mut pi.subpat {
+                        self.bind_pat(sub);
+                    }
+                }
+                Pat::Or(o) => {
+                    let start = self.env.len();
+                    let saved = std::mem::take(&mut self.or_reuse);
+                    let mut first = true;
+                    for c in o.cases.iter_mut() {
+                        if first {
+                            self.or_reuse = saved.clone();
+                            self.bind_pat(c);
+                            let mut r = saved.clone();
+                            r.extend(self.env[start..].iter().cloned());
+                            self.or_reuse = r;
+                            first = false;
+                        } else {
+                            self.bind_pat(c);
+                        }
+                    }
+                    self.or_reuse = saved;
+                }
+                Pat::Paren(x) => self.bind_pat(&mut x.pat),
+                Pat::Reference(x) => self.bind_pat(&mut x.pat),
+                Pat::Type(x) => self.bind_pat(&mut x.pat),
+                Pat::Slice(x) => x.elems.iter_mut().for_each(|e| self.bind_pat(e)),
+                Pat::Tuple(x) => x.elems.iter_mut().for_each(|e| self.bind_pat(e)),
+                Pat::TupleStruct(x) => x.elems.iter_mut().for_each(|e| self.bind_pat(e)),
+                Pat::Struct(x) => {
+                    for f in x.fields.iter_mut() {
+                        if f.colon_token.is_none() {
+                            f.colon_token = Some(Default::default());
+                        }
+                        self.bind_pat(&mut f.pat);
+                    }
+                }
+                _ => {}
+            }
+        }
+
+        /// inside a macro only tokens are available: rename the identifiers that
+        /// are neither fields / methods (after `.`) nor path segments nor macro names
+        fn rename_tokens(&self, ts: TokenStream) -> TokenStream {
+            let toks: Vec<TokenTree> = ts.into_iter().collect();
+            let mut out = Vec::with_capacity(toks.len());
+            for (i, t) in toks.iter().enumerate() {
+                match t {
+                    TokenTree::Ident(id) => {
+                        let prev = if i > 0 { toks.get(i - 1) } else { None };
+                        let prev2 = if i > 1 { toks.get(i - 2) } else { None };
+                        let next = toks.get(i + 1);
+                        let after_dot = is_punct(prev, '.') && !is_punct(prev2, '.');
+                        let in_path = (is_punct(prev, ':') && is_punct(prev2, ':')) || (is_punct(next, ':') && is_punct(toks.get(i + 2), ':'));
+                        let name = id.to_string();
+                        if after_dot || in_path || is_punct(next, '!') {
+                            out.push(t.clone());
+                        } else if let Some(k) = self.lookup(&name) {
+                            out.push(TokenTree::Ident(Self::placeholder(&name, k, id.span())));
+                        } else if name.ends_with("scope") {
+                            out.push(TokenTree::Ident(Ident::new("__S__", id.span())));
+                        } else {
+                            out.push(t.clone());
+                        }
+                    }
+                    TokenTree::Group(g) => {
+                        let mut ng = proc_macro2::Group::new(g.delimiter(), self.rename_tokens(g.stream()));
+                        ng.set_span(g.span());
+                        out.push(TokenTree::Group(ng));
+                    }
+                    other => out.push(other.clone()),
+                }
+            }
+            out.into_iter().collect()
+        }
+    }
+
+    impl VisitMut for Renamer {
+        fn visit_block_mut(&mut self, b: &mut syn::Block) {
+            b.stmts.retain(|s| !stmt_is_hook(s));
+            let n = self.env.len();
+            for s in b.stmts.iter_mut() {
+                self.visit_stmt_mut(s);
+            }
+            self.env.truncate(n);
+        }
+
+        fn visit_local_mut(&mut self, l: &mut syn::Local) {
+            let mut is_id = false;
+            if let Some(init) = &mut l.init {
+                self.visit_expr_mut(&mut init.expr);
+                if let Some((_, d)) = &mut init.diverge {
+                    self.visit_expr_mut(d);
+                }
+                is_id = text(&init.expr).ends_with(".id");
+            }
+            let k = self.next;
+            let plain = matches!(&l.pat, Pat::Ident(_));
+            self.bind_pat(&mut l.pat);
+            if is_id && plain && self.next == k + 1 {
+                self.id_locals.insert(k);
+            }
+        }
+
+        fn visit_item_mut(&mut self, _: &mut syn::Item) {}
+
+        fn visit_macro_mut(&mut self, m: &mut syn::Macro) {
+            m.tokens = self.rename_tokens(std::mem::take(&mut m.tokens));
+        }
+
+        fn visit_expr_mut(&mut self, e: &mut Expr) {
+            match e {
+                Expr::Path(p)
+                    if p.qself.is_none()
+                        && p.path.leading_colon.is_none()
+                        && p.path.segments.len() == 1
+                        && p.path.segments[0].arguments.is_none() =>
+                {
+                    let id = &mut p.path.segments[0].ident;
+                    let name = id.to_string();
+                    if let Some(k) = self.lookup(&name) {
+                        *id = Self::placeholder(&name, k, id.span());
+                    } else if name.ends_with("scope") {
+                        *id = Ident::new("__S__", id.span());
+                    }
+                }
+                Expr::Closure(c) => {
+                    let n = self.env.len();
+                    for p in c.inputs.iter_mut() {
+                        self.bind_pat(p);
+                    }
+                    self.visit_expr_mut(&mut c.body);
+                    self.env.truncate(n);
+                }
+                Expr::If(i) => {
+                    let n = self.env.len();
+                    self.visit_expr_mut(&mut i.cond);
+                    self.visit_block_mut(&mut i.then_branch);
+                    self.env.truncate(n);
+                    if let Some((_, els)) = &mut i.else_branch {
+                        self.visit_expr_mut(els);
+                    }
+                }
+                Expr::While(w) => {
+                    let n = self.env.len();
+                    self.visit_expr_mut(&mut w.cond);
+                    self.visit_block_mut(&mut w.body);
+                    self.env.truncate(n);
+                }
+                Expr::Let(l) => {
+                    self.visit_expr_mut(&mut l.expr);
+                    self.bind_pat(&mut l.pat);
+                }
+                Expr::Match(m) => {
+                    self.visit_expr_mut(&mut m.expr);
+                    m.arms.retain(|a| !is_hook_cfg(&a.attrs));
+                    for arm in m.arms.iter_mut() {
+                        let n = self.env.len();
+                        self.bind_pat(&mut arm.pat);
+                        if let Some((_, g)) = &mut arm.guard {
+                            self.visit_expr_mut(g);
+                        }
+                        self.visit_expr_mut(&mut arm.body);
+                        self.env.truncate(n);
+                    }
+                }
+                Expr::ForLoop(f) => {
+                    self.visit_expr_mut(&mut f.expr);
+                    let n = self.env.len();
+                    self.bind_pat(&mut f.pat);
+                    self.visit_block_mut(&mut f.body);
+                    self.env.truncate(n);
+                }
+                Expr::Struct(s) => {
+                    if s.fields.iter().any(|f| is_hook_cfg(&f.attrs)) {
+                        let kept: Vec<syn::FieldValue> = s.fields.iter().filter(|f| !is_hook_cfg(&f.attrs)).cloned().collect();
+                        s.fields = kept.into_iter().collect();
+                    }
+                    for f in s.fields.iter_mut() {
+                        if f.colon_token.is_none() {
+                            f.colon_token = Some(Default::default());
+                        }
+                        self.visit_expr_mut(&mut f.expr);
+                    }
+                    if let Some(r) = &mut s.rest {
+                        self.visit_expr_mut(r);
+                    }
+                }
+                _ => syn::visit_mut::visit_expr_mut(self, e),
+            }
+        }
+    }
+
+    // --------------------------------------------------------------- events
+
+    fn peel(e: &Expr) -> &Expr {
+        match e {
+            Expr::Try(t) => peel(&t.expr),
+            Expr::Reference(r) => peel(&r.expr),
+            Expr::Paren(p) => peel(&p.expr),
+            Expr::Group(g) => peel(&g.expr),
+            other => other,
+        }
+    }
+
+    fn is_self(e: &Expr) -> bool {
+        matches!(e, Expr::Path(p) if p.path.is_ident("self"))
+    }
+
+    fn is_plain_ident(e: &Expr) -> bool {
+        matches!(peel(e), Expr::Path(p) if p.qself.is_none() && p.path.get_ident().is_some())
+    }
+
+    fn on_type_info(receiver: &Expr) -> bool {
+        let r = text(receiver);
+        r == "self.type_info" || r.starts_with("self.type_info.")
+    }
+
+    fn call_named<'a>(e: &'a Expr, name: &str) -> Option<&'a syn::ExprCall> {
+        match e {
+            Expr::Call(c) if matches!(&*c.func, Expr::Path(p) if p.path.is_ident(name)) => Some(c),
+            _ => None,
+        }
+    }
+
+    /// does the expression contain `if` / `match` / a block / a loop?
+    fn is_simple(e: &Expr) -> bool {
+        struct F(bool);
+        impl<'ast> Visit<'ast> for F {
+            fn visit_expr(&mut self, e: &'ast Expr) {
+                match e {
+                    Expr::If(_) | Expr::Match(_) | Expr::Block(_) | Expr::ForLoop(_) | Expr::While(_) | Expr::Loop(_)
+                    | Expr::Unsafe(_) | Expr::Async(_) | Expr::TryBlock(_) | Expr::Const(_) => self.0 = true,
+                    _ => syn::visit::visit_expr(self, e),
+                }
+            }
+        }
+        let mut f = F(false);
+        f.visit_expr(e);
+        !f.0
+    }
+
+    fn calls_self(e: &Expr) -> bool {
+        struct F(bool);
+        impl<'ast> Visit<'ast> for F {
+            fn visit_expr_method_call(&mut self, m: &'ast syn::ExprMethodCall) {
+                if is_self(&m.receiver) {
+                    self.0 = true;
+                }
+                syn::visit::visit_expr_method_call(self, m);
+            }
+        }
+        let mut f = F(false);
+        f.visit_expr(e);
+        f.0
+    }
+
+    struct Walker<'a> {
+        ev: Vec<String>,
+        id_locals: &'a HashSet<usize>,
+        /// the `match` on this (normalised) scrutinee is not descended into
+        elide: Option<&'a str>,
+    }
+
+    impl Walker<'_> {
+        fn is_id_text(&self, t: &str) -> bool {
+            if t == "id" || t == "span" || t == "MetaId(0)" || t.ends_with(".id") {
+                return true;
+            }
+            match t.strip_prefix('$').and_then(|k| k.parse::<usize>().ok()) {
+                Some(k) => self.id_locals.contains(&k),
+                None => false,
+            }
+        }
+
+        fn call_event(&self, mc: &syn::ExprMethodCall, ti: bool) -> String {
+            let name = mc.method.to_string();
+            if !ti && name.starts_with("error_") {
+                return name;
+            }
+            let mut args: Vec<&Expr> = mc.args.iter().collect();
+            if !ti && SCOPE_FIRST.contains(&name.as_str()) && args.first().map_or(false, |a| is_plain_ident(a)) {
+                args.remove(0);
+            }
+            let mut texts: Vec<String> = args.into_iter().map(text).collect();
+            if texts.last().map(|s| s.as_str()) == Some("None") {
+                texts.pop();
+            }
+            texts.retain(|t| !self.is_id_text(t));
+            format!("{}{}({})", if ti { "ti." } else { "" }, name, texts.join(","))
+        }
+
+        fn obligation_event(mc: &syn::ExprMethodCall) -> String {
+            let mut name = "?".to_string();
+            if let Some(Expr::Struct(s)) = mc.args.first().map(peel) {
+                for f in &s.fields {
+                    if matches!(&f.member, syn::Member::Named(n) if n == "ident") {
+                        for t in f.expr.to_token_stream() {
+                            if let TokenTree::Literal(l) = t {
+                                if let Ok(syn::Lit::Str(s)) = syn::parse_str::<syn::Lit>(&l.to_string()) {
+                                    name = s.value();
+                                    break;
+                                }
+                            }
+                        }
+                    }
+                }
+            }
+            format!("obligation({name})")
+        }
+
+        /// if `e` (modulo `?`, `&`, parentheses) is itself an event, emit it with `prefix` and walk its arguments
+        fn event_expr(&mut self, e: &Expr, prefix: &str) -> bool {
+            match peel(e) {
+                Expr::MethodCall(mc) if is_self(&mc.receiver) => {
+                    let ev = self.call_event(mc, false);
+                    self.ev.push(format!("{prefix}{ev}"));
+                    for a in &mc.args {
+                        self.visit_expr(a);
+                    }
+                    true
+                }
+                Expr::MethodCall(mc) if on_type_info(&mc.receiver) && TI_METHODS.iter().any(|m| mc.method == m) => {
+                    let ev = self.call_event(mc, true);
+                    self.ev.push(format!("{prefix}{ev}"));
+                    for a in &mc.args {
+                        self.visit_expr(a);
+                    }
+                    true
+                }
+                p => match call_named(p, "Ok") {
+                    Some(c) => {
+                        self.ev.push(format!("{prefix}Ok({})", text(&c.args)));
+                        for a in &c.args {
+                            self.visit_expr(a);
+                        }
+                        true
+                    }
+                    None => false,
+                },
+            }
+        }
+
+        /// an expression statement `e;`: one that neither calls `self` nor is bookkeeping on
+        /// `self.type_info` / `self.obligations` is written out (`x = true`, `v.push(y)`, `continue` …)
+        fn statement(&mut self, e: &Expr) {
+            let t = text(e);
+            let skip = matches!(peel(e), Expr::Return(_) | Expr::Macro(_))
+                || calls_self(e)
+                || t.starts_with("self.type_info.")
+                || t.starts_with("self.obligations.");
+            if !skip && is_simple(e) {
+                self.ev.push(t);
+            }
+            self.visit_expr(e);
+        }
+
+        /// an expression in value position: the tail of a block, the body of an arm
+        fn value(&mut self, e: &Expr) {
+            let p = peel(e);
+            let quiet = match p {
+                Expr::If(_) | Expr::Match(_) | Expr::Block(_) | Expr::ForLoop(_) | Expr::While(_) | Expr::Loop(_)
+                | Expr::Unsafe(_) | Expr::Return(_) => true,
+                Expr::MethodCall(mc) => {
+                    is_self(&mc.receiver)
+                        || (on_type_info(&mc.receiver) && TI_METHODS.iter().any(|m| mc.method == m))
+                        || (text(&mc.receiver) == "self.obligations" && mc.method == "push")
+                }
+                other => call_named(other, "Ok").is_some() || call_named(other, "Err").is_some(),
+            };
+            if !quiet && is_simple(e) {
+                self.ev.push(format!("value({})", text(e)));
+            }
+            self.visit_expr(e);
+        }
+    }
+
+    impl<'ast> Visit<'ast> for Walker<'_> {
+        fn visit_item(&mut self, _: &'ast syn::Item) {}
+
+        fn visit_block(&mut self, b: &'ast syn::Block) {
+            let last = b.stmts.len().wrapping_sub(1);
+            for (i, s) in b.stmts.iter().enumerate() {
+                match s {
+                    Stmt::Expr(e, None) if i == last => self.value(e),
+                    other => self.visit_stmt(other),
+                }
+            }
+        }
+
+        fn visit_local(&mut self, l: &'ast syn::Local) {
+            let Some(init) = &l.init else { return };
+            let pat = pat_text(&l.pat);
+            if let Some((_, d)) = &init.diverge {
+                self.ev.push(format!("letelse({pat}={})", text(&init.expr)));
+                self.visit_expr(&init.expr);
+                self.ev.push("else".into());
+                self.visit_expr(d);
+                self.ev.push("end".into());
+            } else if self.event_expr(&init.expr, &format!("{pat}=")) {
+            } else if is_simple(&init.expr) {
+                self.ev.push(format!("{pat}={}", text(&init.expr)));
+                self.visit_expr(&init.expr);
+            } else {
+                self.ev.push(format!("let({pat})"));
+                self.visit_expr(&init.expr);
+                if matches!(peel(&init.expr), Expr::Block(_)) {
+                    self.ev.push("end".into());
+                }
+            }
+        }
+
+        fn visit_stmt(&mut self, s: &'ast Stmt) {
+            match s {
+                Stmt::Expr(e, Some(_)) => self.statement(e),
+                other => syn::visit::visit_stmt(self, other),
+            }
+        }
+
+        fn visit_expr_assign(&mut self, a: &'ast syn::ExprAssign) {
+            if is_plain_ident(&a.left) && self.event_expr(&a.right, &format!("{}=", text(&a.left))) {
+                return;
+            }
+            syn::visit::visit_expr_assign(self, a);
+        }
+
+        fn visit_expr_method_call(&mut self, mc: &'ast syn::ExprMethodCall) {
+            if is_self(&mc.receiver) {
+                let ev = self.call_event(mc, false);
+                self.ev.push(ev);
+                for a in &mc.args {
+                    self.visit_expr(a);
+                }
+            } else if on_type_info(&mc.receiver) {
+                if TI_METHODS.iter().any(|m| mc.method == m) {
+                    let ev = self.call_event(mc, true);
+                    self.ev.push(ev);
+                }
+                for a in &mc.args {
+                    self.visit_expr(a);
+                }
+            } else if text(&mc.receiver) == "self.obligations" && mc.method == "push" {
+                self.ev.push(Self::obligation_event(mc));
+            } else {
+                syn::visit::visit_expr_method_call(self, mc);
+            }
+        }
+
+        fn visit_expr_call(&mut self, c: &'ast syn::ExprCall) {
+            if matches!(&*c.func, Expr::Path(p) if p.path.is_ident("Ok")) {
+                self.ev.push(format!("Ok({})", text(&c.args)));
+            }
+            syn::visit::visit_expr_call(self, c);
+        }
+
+        fn visit_expr_return(&mut self, r: &'ast syn::ExprReturn) {
+            self.ev.push("return".into());
+            syn::visit::visit_expr_return(self, r);
+        }
+
+        fn visit_expr_binary(&mut self, b: &'ast syn::ExprBinary) {
+            let op = match b.op {
+                syn::BinOp::BitOrAssign(_) => Some("|="),
+                syn::BinOp::BitAndAssign(_) => Some("&="),
+                _ => None,
+            };
+            match op {
+                Some(op) => {
+                    self.visit_expr(&b.left);
+                    if calls_self(&b.right) {
+                        self.ev.push(op.into());
+                    }
+                    self.visit_expr(&b.right);
+                }
+                None => syn::visit::visit_expr_binary(self, b),
+            }
+        }
+
+        fn visit_expr_if(&mut self, i: &'ast syn::ExprIf) {
+            self.ev.push(format!("if({})", text(&i.cond)));
+            self.visit_expr(&i.cond);
+            self.visit_block(&i.then_branch);
+            if let Some((_, els)) = &i.else_branch {
+                self.ev.push("else".into());
+                self.visit_expr(els);
+            }
+            self.ev.push("end".into());
+        }
+
+        fn visit_expr_match(&mut self, m: &'ast syn::ExprMatch) {
+            let scrut = text(&m.expr);
+            self.ev.push(format!("match({scrut})"));
+            if self.elide == Some(scrut.as_str()) {
+                self.ev.push("...".into());
+                self.ev.push("end".into());
+                return;
+            }
+            self.visit_expr(&m.expr);
+            for arm in &m.arms {
+                self.ev.push(format!("arm({})", text(&arm.pat)));
+                if let Some((_, g)) = &arm.guard {
+                    self.ev.push(format!("guard({})", text(g)));
+                    self.visit_expr(g);
+                }
+                self.value(&arm.body);
+            }
+            self.ev.push("end".into());
+        }
+
+        fn visit_expr_for_loop(&mut self, f: &'ast syn::ExprForLoop) {
+            self.ev.push(format!("for({}<-{})", text(&f.pat), text(&f.expr)));
+            self.visit_expr(&f.expr);
+            self.visit_block(&f.body);
+            self.ev.push("end".into());
+        }
+
+        fn visit_expr_while(&mut self, w: &'ast syn::ExprWhile) {
+            self.ev.push(format!("while({})", text(&w.cond)));
+            self.visit_expr(&w.cond);
+            self.visit_block(&w.body);
+            self.ev.push("end".into());
+        }
+
+        fn visit_expr_loop(&mut self, l: &'ast syn::ExprLoop) {
+            self.ev.push("loop".into());
+            self.visit_block(&l.body);
+            self.ev.push("end".into());
+        }
+    }
+
+    /// the events of an arm body (its pattern's variables are free, like function parameters)
+    fn arm_events(body: &Expr) -> Vec<String> {
+        let mut body = body.clone();
+        let mut r = Renamer::new();
+        r.visit_expr_mut(&mut body);
+        let mut w = Walker { ev: vec![], id_locals: &r.id_locals, elide: None };
+        w.value(&body);
+        w.ev
+    }
+
+    /// the events of a whole function body
+    fn fn_events(block: &syn::Block, elide: Option<&str>) -> Vec<String> {
+        let mut block = block.clone();
+        let mut r = Renamer::new();
+        r.visit_block_mut(&mut block);
+        let mut w = Walker { ev: vec![], id_locals: &r.id_locals, elide };
+        w.visit_block(&block);
+        w.ev
+    }
+
+    // ----------------------------------------------------------- the tables
+
+    fn the_match(f: &find::FnBody, fname: &str, scrut: &str) -> Result<syn::ExprMatch, String> {
+        let mut ms = find::matches_on(&f.block, scrut);
+        if ms.len() != 1 {
+            return Err(format!("expected one `match {scrut}` in TypeChecker::{fname}, found {}", ms.len()));
+        }
+        let mut m = ms.pop().unwrap();
+        m.arms.retain(|a| !is_hook_cfg(&a.attrs));
+        Ok(m)
+    }
+
+    /// `Name`, `Name(x, _, ..)`, `path::Name(..)`: the constructor's name
+    fn plain_ctor(p: &Pat, single_segment: bool) -> Option<String> {
+        let path_name = |path: &syn::Path| -> Option<String> {
+            if single_segment && path.segments.len() != 1 {
+                return None;
+            }
+            let last = path.segments.last()?;
+            if !last.arguments.is_none() {
+                return None;
+            }
+            Some(last.ident.to_string())
+        };
+        match p {
+            Pat::Ident(i) if i.subpat.is_none() && i.by_ref.is_none() && i.mutability.is_none() => {
+                let n = i.ident.to_string();
+                if n.chars().next().map_or(false, |c| c.is_uppercase()) { Some(n) } else { None }
+            }
+            Pat::Path(pp) if pp.qself.is_none() => path_name(&pp.path),
+            Pat::TupleStruct(t) if t.qself.is_none() => {
+                let ok = t.elems.iter().all(|e| match e {
+                    Pat::Wild(_) | Pat::Rest(_) => true,
+                    Pat::Ident(i) => i.subpat.is_none() && i.ident.to_string().chars().next().map_or(false, |c| !c.is_uppercase()),
+                    _ => false,
+                });
+                if ok { path_name(&t.path) } else { None }
+            }
+            _ => None,
+        }
+    }
+
+    fn ctor_arms(m: &syn::ExprMatch, what: &str, single_segment: bool) -> Result<Vec<(String, Vec<String>)>, String> {
+        let mut rows: Vec<(String, Vec<String>)> = Vec::new();
+        for arm in &m.arms {
+            if arm.guard.is_some() {
+                return Err(format!("{what}: arm `{}` has a guard", text(&arm.pat)));
+            }
+            let name = plain_ctor(&arm.pat, single_segment)
+                .ok_or_else(|| format!("{what}: arm pattern `{}` is not a plain constructor pattern", text(&arm.pat)))?;
+            if rows.iter().any(|(n, _)| *n == name) {
+                return Err(format!("{what}: two arms for constructor `{name}`"));
+            }
+            rows.push((name, arm_events(&arm.body)));
+        }
+        if rows.is_empty() {
+            return Err(format!("{what}: no arms"));
+        }
+        Ok(rows)
+    }
+
+    fn lean_str(s: &str) -> String {
+        let mut o = String::with_capacity(s.len() + 2);
+        o.push('"');
+        for c in s.chars() {
+            match c {
+                '"' => o.push_str("\\\""),
+                '\\' => o.push_str("\\\\"),
+                '\n' => o.push_str("\\n"),
+                '\t' => o.push_str("\\t"),
+                '\r' => o.push_str("\\r"),
+                c => o.push(c),
+            }
+        }
+        o.push('"');
+        o
+    }
+
+    fn lean_table(doc: &str, name: &str, rows: &[(String, Vec<String>)]) -> String {
+        let mut o = format!("/-- {doc} -/\ndef {name} : List (String × List String) := [\n");
+        for (i, (k, evs)) in rows.iter().enumerate() {
+            let sep = if i + 1 == rows.len() { "" } else { "," };
+            if evs.is_empty() {
+                o.push_str(&format!("  ({}, []){sep}\n", lean_str(k)));
+                continue;
+            }
+            o.push_str(&format!("  ({}, [\n", lean_str(k)));
+            for (j, e) in evs.iter().enumerate() {
+                let s = if j + 1 == evs.len() { "" } else { "," };
+                o.push_str(&format!("    {}{s}\n", lean_str(e)));
+            }
+            o.push_str(&format!("  ]){sep}\n"));
+        }
+        o.push_str("]\n\n");
+        o
+    }
+
+    pub fn c07arms(repo: &Path) -> Result<String, String> {
+        let expr_rs = find::parse(repo, "src/typechecker/expr.rs")?;
+        let function_rs = find::parse(repo, "src/typechecker/function.rs")?;
+        let mod_rs = find::parse(repo, "src/typechecker/mod.rs")?;
+        let tc = Some("TypeChecker");
+
+        let expr_fn = find::func(&expr_rs, "expr", tc)?;
+        let stmt_fn = find::func(&expr_rs, "stmt", tc)?;
+        let literal_fn = find::func(&expr_rs, "literal", tc)?;
+
+        let expr_arms = ctor_arms(&the_match(&expr_fn, "expr", "&expr.node")?, "exprArms", true)?;
+        let stmt_arms = ctor_arms(&the_match(&stmt_fn, "stmt", "&stmt.node")?, "stmtArms", false)?;
+        let lit_match = the_match(&literal_fn, "literal", "&lit.node")?;
+        let mut literal_arms: Vec<(String, Vec<String>)> = Vec::new();
+        for arm in &lit_match.arms {
+            if arm.guard.is_some() {
+                return Err(format!("literalArms: arm `{}` has a guard", text(&arm.pat)));
+            }
+            // the pattern is the key: written as in the source (its variables are not renamed)
+            let key = arm.pat.to_token_stream().to_string().replace([' ', '\n'], "").replace('&', "");
+            if literal_arms.iter().any(|(k, _)| *k == key) {
+                return Err(format!("literalArms: two arms `{key}`"));
+            }
+            literal_arms.push((key, arm_events(&arm.body)));
+        }
+        if literal_arms.is_empty() {
+            return Err("literalArms: no arms".into());
+        }
+
+        let mut fns: Vec<(String, Vec<String>)> = Vec::new();
+        for name in ["block", "match_expr", "binop", "check_arguments", "record_fields", "path_function_call", "method_call", "access_field"] {
+            fns.push((name.to_string(), fn_events(&find::func(&expr_rs, name, tc)?.block, None)));
+        }
+        for name in ["function", "constant", "filter_map", "test"] {
+            fns.push((name.to_string(), fn_events(&find::func(&function_rs, name, tc)?.block, None)));
+        }
+        fns.push(("unify".to_string(), fn_events(&find::func(&mod_rs, "unify", tc)?.block, None)));
+        // what `expr`, `stmt` and `literal` do around the `match` whose arms are listed above
+        fns.push(("expr".to_string(), fn_events(&expr_fn.block, Some("expr.node"))));
+        fns.push(("stmt".to_string(), fn_events(&stmt_fn.block, Some("stmt.node"))));
+        fns.push(("literal".to_string(), fn_events(&literal_fn.block, Some("lit.node"))));
+
+        let mut out = String::new();
+        out.push_str("/- GENERATED by /verif/extract (target c07arms) from src/typechecker/expr.rs, function.rs, mod.rs — do not edit.\n");
+        out.push_str("   Call skeleton of the type checker's expression code; the event vocabulary is described in\n");
+        out.push_str("   extract/src/targets/c07.rs (`mod arms`). Locals are alpha-renamed to `$k`. -/\n");
+        out.push_str("namespace RotoV.Gen.C07Arms\n\n");
+        out.push_str(&lean_table(
+            "per arm of `match &expr.node` in `TypeChecker::expr`: constructor name, events in source order",
+            "exprArms",
+            &expr_arms,
+        ));
+        out.push_str(&lean_table("per arm of `match &stmt.node` in `TypeChecker::stmt`", "stmtArms", &stmt_arms));
+        out.push_str(&lean_table(
+            "per arm of `match &lit.node` in `TypeChecker::literal` (pattern text normalised, e.g. \"Integer(_,Some(ty))\")",
+            "literalArms",
+            &literal_arms,
+        ));
+        out.push_str(&lean_table(
+            "whole-function skeletons: block, match_expr, binop, check_arguments, record_fields, path_function_call, method_call, access_field (expr.rs); function, constant, filter_map, test (function.rs); unify (mod.rs, only the fn `unify`, not unify_inner); and expr, stmt, literal (expr.rs) with the `match` whose arms are listed above elided (`...`)",
+            "fnSkeletons",
+            &fns,
+        ));
+        out.push_str("end RotoV.Gen.C07Arms\n");
+        Ok(out)
+    }
 }
